@@ -12,6 +12,10 @@ def NoSpace (d : Text) : Prop := ∀ c ∈ d, isSpace c = false
 /-- `1*DIGIT` -/
 def IsNum (d : Text) : Prop := d ≠ [] ∧ ∀ c ∈ d, isAsciiDigit c = true
 
+instance (w : Text) : Decidable (AllSpace w) := by unfold AllSpace; exact inferInstance
+instance (d : Text) : Decidable (NoSpace d) := by unfold NoSpace; exact inferInstance
+instance (d : Text) : Decidable (IsNum d) := by unfold IsNum; exact inferInstance
+
 /-! ### facts from the generated tables (they are proof obligations over the tables) -/
 
 theorem space_codes_not_digit_dash_comma_eq :
